@@ -58,6 +58,38 @@ func judgeC07(x scnResult, res *MonitorResult) {
 			}
 		}
 	}
+	// the CSV matured (callback delivered) while the invoice was unpaid: by the end of the scenario — which
+	// always ends with a restart and a redelivery of pending chain notifications, all scripted faults
+	// consumed — the refund (or a coop spend) must have been broadcast
+	csvDelivered := false
+	for _, o := range x.w.obs {
+		if o.Kind == "step" && strings.HasPrefix(o.A["s"], "csv") && o.A["r"] == "ok" {
+			csvDelivered = true
+		}
+	}
+	faultsLeft := 0
+	for _, q := range x.w.faults {
+		faultsLeft += len(q)
+	}
+	if openings > 0 && csvDelivered && !paid && !spentBack && faultsLeft == 0 && !x.w.dead && !crashedInBroadcast {
+		res.addFinding("C07/"+x.sc.role+"/csv-matured-no-refund/"+final,
+			"the CSV matured while the claim invoice was unpaid but no refund was broadcast (final state "+final+")", map[string]interface{}{"scenario": scenarioKey(x.sc.steps)})
+	}
+	// … and a swap that still has funds locked at the end must be able to notice the CSV maturing: a CSV
+	// watch is registered (or it is in the CSV claim state, which the next restart re-executes)
+	hasWatch := false
+	for _, ch := range []*simChain{x.w.btc, x.w.lbtc} {
+		for _, wt := range ch.csvWatch {
+			if wt.swapId == x.ctx.id {
+				hasWatch = true
+			}
+		}
+	}
+	if openings > 0 && recorded && !finishedState(final) && !paid && !spentBack && !hasWatch && faultsLeft == 0 && !x.w.dead &&
+		!crashedInBroadcast && !strings.HasSuffix(final, "ClaimSwapCsv") {
+		res.addFinding("C07/"+x.sc.role+"/locked-funds-without-csv-watch/"+final,
+			"funds are locked, unpaid and unspent, the swap rests in "+final+" and no CSV watch is registered: the refund can never be triggered", map[string]interface{}{"scenario": scenarioKey(x.sc.steps)})
+	}
 	if openings > 0 && finishedState(final) && !paid && !spentBack {
 		cause := "other"
 		if crashedInBroadcast {
@@ -72,6 +104,7 @@ func judgeC07(x scnResult, res *MonitorResult) {
 func judgeC15(x scnResult, res *MonitorResult) {
 	openings := 0
 	crashedInBroadcast := false
+	crashedInPay := false
 	paySuccess := map[string]int{}
 	cancelled := false
 	sha := map[string]string{}
@@ -80,6 +113,9 @@ func judgeC15(x scnResult, res *MonitorResult) {
 		case "crash":
 			if o.A["in"] == "broadcast.opening" {
 				crashedInBroadcast = true
+			}
+			if o.A["in"] == "pay" {
+				crashedInPay = true
 			}
 		case "broadcast":
 			if o.A["tx"] == "opening" {
@@ -103,6 +139,13 @@ func judgeC15(x scnResult, res *MonitorResult) {
 				if paySuccess[o.A["hash"]] == 2 {
 					res.addFinding("C15/"+x.sc.role+"/second-payment", "the same invoice was paid twice", map[string]interface{}{"scenario": scenarioKey(x.sc.steps)})
 				}
+			}
+			if o.A["kind"] == "claim" && paySuccess[o.A["hash"]] >= 1 && o.A["out"] != "success" {
+				cause := "other"
+				if crashedInPay {
+					cause = "crash-in-pay"
+				}
+				res.addFinding("C15/"+x.sc.role+"/pay-attempt-after-success/"+cause, "a new payment attempt was started for an invoice whose payment had already succeeded", map[string]interface{}{"scenario": scenarioKey(x.sc.steps)})
 			}
 			if cancelled && !strings.HasPrefix(o.A["out"], "refused") {
 				res.addFinding("C15/"+x.sc.role+"/pay-after-cancel/"+o.A["kind"], "a payment attempt was made after the swap was cancelled", map[string]interface{}{"scenario": scenarioKey(x.sc.steps)})
